@@ -289,6 +289,9 @@ type mergeOutcome struct {
 	tableSum  []byte
 }
 
+// mergeStuckAfter is the generous watchdog on the merge channel (a verdict on a hang is by goroutine state, see C16).
+var mergeStuckAfter = 180 * time.Second
+
 // runMergePkg drives Merger exactly as cmd/wrgl does for the non-interactive path.
 func runMergePkg(db objects.Store, baseSum []byte, baseT *objects.Table, sums [][]byte, tbls []*objects.Table, output string) (out *mergeOutcome, err error) {
 	buf, err := diff.BlockBufferWithSingleStore(db, append([]*objects.Table{baseT}, tbls...))
@@ -311,7 +314,7 @@ func runMergePkg(db objects.Store, baseSum []byte, baseT *objects.Table, sums []
 	}
 	out = &mergeOutcome{conflicts: map[string][]string{}}
 	var cd *diff.ColDiff
-	timeout := time.After(180 * time.Second)
+	timeout := time.After(mergeStuckAfter)
 	var conflicts []*merge.Merge
 loop:
 	for {
@@ -326,7 +329,7 @@ loop:
 			}
 			conflicts = append(conflicts, m)
 		case <-timeout:
-			return nil, fmt.Errorf("STUCK: merge channel not closed after 180s")
+			return nil, fmt.Errorf("STUCK: merge channel not closed after %v", mergeStuckAfter)
 		}
 	}
 	if cd == nil {
